@@ -3,6 +3,7 @@ package main
 import (
 	"fmt"
 	"go/types"
+	"regexp"
 	"strings"
 
 	"golang.org/x/tools/go/ssa"
@@ -73,8 +74,26 @@ var abstractSorts = map[string]Sort{
 }
 
 func typeKey(t types.Type) string {
-	return types.TypeString(t, func(p *types.Package) string { return p.Path() })
+	t = types.Unalias(t)
+	if b, ok := t.(*types.Basic); ok {
+		switch b.Kind() {
+		case types.Uint8:
+			return "uint8"
+		case types.Int32:
+			return "int32"
+		}
+	}
+	s := types.TypeString(t, func(p *types.Package) string { return p.Path() })
+	// byte and rune print as aliases inside composite types
+	if strings.Contains(s, "byte") || strings.Contains(s, "rune") {
+		s = byteRe.ReplaceAllString(s, "uint8")
+		s = runeRe.ReplaceAllString(s, "int32")
+	}
+	return s
 }
+
+var byteRe = regexp.MustCompile(`\bbyte\b`)
+var runeRe = regexp.MustCompile(`\brune\b`)
 
 func abstractSort(t types.Type) (Sort, bool) {
 	if n, ok := t.(*types.Named); ok {
